@@ -2,9 +2,10 @@
 Line-protocol driver for C12.
   cp <maxUpgrades> <noIntroduce> <vuln ids .> <patches ;>   patch = n.f.t+n.f.t/fixed ./introduced .
       → sel=<chosen patches> un=<id:0|1 , sorted by id>
-  cd <old ids .> <new ids .> <old reqs k:v ,> <new reqs k:v ,>
-      → fixed=<ids . sorted> intro=<ids . sorted> ups=<k:from|-:to , sorted>
+  cd <old ids .> <new ids .> <old reqs name.alias:v ,> <new reqs name.alias:v ,>
+      → fixed=<ids . sorted> intro=<ids . sorted> ups=<name.alias:from|-:to , sorted>
   e2e2 <k> <explicit .> <orig .> <np> <fixed .> <intro .> <after .> <unfix .> <reqsame 0|1>
+       <entries before name.alias:v ,> <entries after> <reported updates name.alias:from|-:to ,>
       (built by the check from the IMPLEMENTATION's observations) → spec=1 | spec=0 why=<token>, then cls=<known class|->
 -/
 import Scalibr.Base.Wire
@@ -29,10 +30,28 @@ def parsePatch (s : String) : Option Patch :=
 def showPatch (p : Patch) : String :=
   joinWith "+" (p.updates.map fun u => s!"{u.name}.{u.frm}.{u.to}") ++ "/" ++ showNats p.fixed ++ "/" ++ showNats p.introduced
 
-def parseReqs (s : String) : Option (List (Nat × Nat)) :=
+def parseKey (s : String) : Option Key :=
+  match s.splitOn "." with
+  | [k, a] => match k.toNat?, a.toNat? with | some k, some a => some (k, a) | _, _ => none
+  | _ => none
+
+def showKey (k : Key) : String := s!"{k.1}.{k.2}"
+
+/-- requirement entries `name.alias:version` -/
+def parseReqs (s : String) : Option (List (Key × Nat)) :=
   (listOf s ",").mapM fun e => match e.splitOn ":" with
-    | [k, v] => match k.toNat?, v.toNat? with | some k, some v => some (k, v) | _, _ => none
+    | [k, v] => match parseKey k, v.toNat? with | some k, some v => some (k, v) | _, _ => none
     | _ => none
+
+/-- updates `name.alias:from|-:to` -/
+def parseUps (s : String) : Option (List ReqUpdate) :=
+  (listOf s ",").mapM fun e => match e.splitOn ":" with
+    | [k, f, t] => match parseKey k, t.toNat? with
+      | some k, some t => if f = "-" then some ⟨k, none, t⟩ else (f.toNat?).map fun f => ⟨k, some f, t⟩
+      | _, _ => none
+    | _ => none
+
+def showReqs (rs : List (Key × Nat)) : String := joinWith "," (sortStrs (rs.map fun (k, v) => s!"{showKey k}:{v}"))
 
 def handleCP (k ni vs ps : String) : String :=
   match k.toInt?, boolOf? ni, natsOf vs, (listOf ps ";").mapM parsePatch with
@@ -46,7 +65,7 @@ def handleCD (o n orq nrq : String) : String :=
   match natsOf o, natsOf n, parseReqs orq, parseReqs nrq with
   | some o, some n, some orq, some nrq =>
     let (fx, ins) := vulnDiff o n
-    let ups := (reqDiff orq nrq).map fun u => s!"{u.key}:{match u.frm with | some f => toString f | none => "-"}:{u.to}"
+    let ups := (reqDiff orq nrq).map fun u => s!"{showKey u.key}:{match u.frm with | some f => toString f | none => "-"}:{u.to}"
     s!"fixed={showNats (sortNats fx)} intro={showNats (sortNats ins)} ups={joinWith "," (sortStrs ups).eraseDups}"
   | _, _, _, _ => "bad-op"
 
@@ -63,19 +82,29 @@ def judgeE2E (orig : List Nat) (np : Nat) (fx ins after unfix : List Nat) (reqsa
       else "spec=0 why=reanalysis-differs-from-original-minus-fixed-plus-introduced"
     else "spec=1"
 
+/-- "every reported PackageUpdate is applied in the written file", per manifest ENTRY: the re-read
+requirement entries are the original entries with the reported updates substituted (an update with no
+old version is an added entry) -/
+def writtenAsReported (before after : List (Key × Nat)) (ups : List ReqUpdate) : Bool :=
+  let adds := (ups.filter (·.frm.isNone)).map fun u => (u.key, u.to)
+  showReqs after == showReqs (applyUpdates before ups ++ adds)
+
 /-- known class: ExplicitVulns is set and the patch reports as introduced a vulnerability outside it -/
-def handleE2E (k expl orig np fx ins after unfix reqsame : String) : String :=
-  match k.toInt?, natsOf expl, natsOf orig, np.toNat?, natsOf fx, natsOf ins, natsOf after, natsOf unfix, boolOf? reqsame with
-  | some _, some expl, some orig, some np, some fx, some ins, some after, some unfix, some reqsame =>
+def handleE2E (k expl orig np fx ins after unfix reqsame rb ra ru : String) : String :=
+  match k.toInt?, natsOf expl, natsOf orig, np.toNat?, natsOf fx, natsOf ins, natsOf after, natsOf unfix, boolOf? reqsame,
+        parseReqs rb, parseReqs ra, parseUps ru with
+  | some _, some expl, some orig, some np, some fx, some ins, some after, some unfix, some reqsame, some rb, some ra, some ru =>
     let cls := if !expl.isEmpty && ins.any (fun v => !expl.contains v) then "C12/explicit-vulns-introduced" else "-"
-    judgeE2E orig np fx ins after unfix reqsame ++ " cls=" ++ cls
-  | _, _, _, _, _, _, _, _, _ => "bad-op"
+    let j := judgeE2E orig np fx ins after unfix reqsame
+    let j := if j = "spec=1" && !writtenAsReported rb ra ru then "spec=0 why=written-manifest-differs-from-original-with-the-reported-updates-substituted" else j
+    j ++ " cls=" ++ cls
+  | _, _, _, _, _, _, _, _, _, _, _, _ => "bad-op"
 
 def handle (line : String) : String :=
   match line.splitOn " " with
   | ["cp", k, ni, vs, ps] => handleCP k ni vs ps
   | ["cd", o, n, orq, nrq] => handleCD o n orq nrq
-  | ["e2e2", k, expl, orig, np, fx, ins, after, unfix, reqsame] => handleE2E k expl orig np fx ins after unfix reqsame
+  | ["e2e2", k, expl, orig, np, fx, ins, after, unfix, reqsame, rb, ra, ru] => handleE2E k expl orig np fx ins after unfix reqsame rb ra ru
   | _ => "bad-op"
 
 def main : IO Unit := serve handle
